@@ -304,12 +304,26 @@ func corpusC01(ctx *Ctx, op string, raw json.RawMessage) {
 }
 
 func runC03(ctx *Ctx) {
+	if ctx.Idx == 0 {
+		// one size-boundary table per run: more blocks than any pre-allocation cap of the readers
+		in := &c01BigInput{N: 4096*255 + 1}
+		ctx.Emit("inv-big", in, c01BigRun(in), true, "size-boundary", "producer=ingest")
+		return
+	}
 	t, rs, w, comma, tags := genIngestSpec(ctx.R, ctx.Thorough())
 	in, res := doIngest(t, rs, w, comma, true)
 	ctx.Emit("inv", in, res, ingestNontrivial(in, res), append(tags, "producer=ingest")...)
 }
 
 func corpusC03(ctx *Ctx, op string, raw json.RawMessage) {
+	if op == "inv-big" {
+		var in c01BigInput
+		if err := json.Unmarshal(raw, &in); err != nil {
+			panic(err)
+		}
+		ctx.Emit("inv-big", &in, c01BigRun(&in), true, "corpus")
+		return
+	}
 	var in ingestInput
 	if err := json.Unmarshal(raw, &in); err != nil {
 		panic(err)
